@@ -403,12 +403,14 @@ Qed.
 
 (* ------------------------------------------------------------------ execution is a function of the word read *)
 (* Any interpretation of the items: [do_ins s x] executes an instruction item (None = fault / leaves the
-   function), [holds s c] says whether a guard is enabled.  Exec/Sem.v is the instance
-   do_ins = exec_op, holds = "den c = 1" (unguarded = enabled). *)
+   function), [holds s c] says whether a guard is enabled (None = its evaluation faults).  Exec/Sem.v is the
+   instance do_ins = exec_op, holds = "den c = 1" (unguarded = enabled). *)
 Section Interp.
   Variable St : Type.
   Variable do_ins : St -> item -> option St.
-  Variable holds : St -> option expr -> bool.
+  Variable holds : St -> option expr -> option bool.
+  Definition holds_t (s : St) (c : option expr) : bool := match holds s c with Some true => true | _ => false end.
+  Definition holds_f (s : St) (c : option expr) : bool := match holds s c with None => true | _ => false end.
 
   (* states after each item of a word; None = the word is not executable from s *)
   Fixpoint weval (s : St) (w : list item) : option (list St) :=
@@ -418,7 +420,7 @@ Section Interp.
                       | Some s' => option_map (cons s') (weval s' t)
                       | None => None
                       end
-    | Grd c :: t => if holds s c then option_map (cons s) (weval s t) else None
+    | Grd c :: t => if holds_t s c then option_map (cons s) (weval s t) else None
     end.
 
   (* a feasible execution of g from s: a word of g that s can execute, with the states it goes through *)
@@ -433,7 +435,8 @@ Section Interp.
   (* ---- the deterministic executor (must-semantics, as Exec/Sem.v: exactly one enabled guard) ---- *)
   Inductive outcome := OCut | OEnd | ONoGuard | OAmbiguous | OFault | OSilentLoop.
 
-  Definition enabled (s : St) (l : list (option expr * Z)) := filter (fun ct => holds s (fst ct)) l.
+  Definition enabled (s : St) (l : list (option expr * Z)) := filter (fun ct => holds_t s (fst ct)) l.
+  Definition faulty (s : St) (l : list (option expr * Z)) : bool := existsb (fun ct => holds_f s (fst ct)) l.
 
   (* n counts visible steps (instructions and branch decisions); sf bounds silent chains *)
   Fixpoint pexec (g : cfg) (sf : nat) (n : nat) (p : pos) (s : St) : list (item * St) * outcome :=
@@ -449,7 +452,8 @@ Section Interp.
                           | None => ([], OFault)
                           end
             | KBranch [] => ([], OEnd)
-            | KBranch l => match enabled s l with
+            | KBranch l => if faulty s l then ([], OFault)
+                           else match enabled s l with
                            | [] => ([], ONoGuard)
                            | [ct] => let res := pexec g sf n' (snd ct, O) s in ((Grd (fst ct), s) :: fst res, snd res)
                            | _ => ([], OAmbiguous)
@@ -529,7 +533,7 @@ Qed.
 Section ExecSound.
   Variable St : Type.
   Variable do_ins : St -> item -> option St.
-  Variable holds : St -> option expr -> bool.
+  Variable holds : St -> option expr -> option bool.
   Variables (g1 g2 : cfg) (n1 n2 : nat) (R : list ppair).
   Hypothesis HB : is_bisim g1 g2 n1 n2 R = true.
   Hypothesis D1 : det g1 = true.
@@ -551,11 +555,26 @@ Section ExecSound.
     length (en s l1) = length (en s l2).
   Proof.
     intros N1 N2 A B.
-    pose proof (NoDup_map_filter fst (fun ct => holds s (fst ct)) l1 (nodup_labs_NoDup _ N1)) as U1.
-    pose proof (NoDup_map_filter fst (fun ct => holds s (fst ct)) l2 (nodup_labs_NoDup _ N2)) as U2.
+    pose proof (NoDup_map_filter fst (fun ct => holds_t St holds s (fst ct)) l1 (nodup_labs_NoDup _ N1)) as U1.
+    pose proof (NoDup_map_filter fst (fun ct => holds_t St holds s (fst ct)) l2 (nodup_labs_NoDup _ N2)) as U2.
     pose proof (NoDup_incl_length U1 (enabled_incl s l1 l2 A)) as L1.
     pose proof (NoDup_incl_length U2 (enabled_incl s l2 l1 B)) as L2.
     unfold en, enabled in *. rewrite !map_length in L1, L2. lia.
+  Qed.
+
+  Lemma faulty_incl s l1 l2 : (forall c t, In (c, t) l1 -> exists t', In (c, t') l2) ->
+    faulty St holds s l1 = true -> faulty St holds s l2 = true.
+  Proof.
+    unfold faulty. intros A H. apply existsb_exists in H as ([c t] & I & F). cbn [fst] in F.
+    destruct (A _ _ I) as [t' I']. apply existsb_exists. exists (c, t'). split; [exact I' | exact F].
+  Qed.
+  Lemma faulty_eq s l1 l2 : (forall c t, In (c, t) l1 -> exists t', In (c, t') l2) ->
+    (forall c t, In (c, t) l2 -> exists t', In (c, t') l1) -> faulty St holds s l1 = faulty St holds s l2.
+  Proof.
+    intros A B. destruct (faulty St holds s l1) eqn:F1.
+    - symmetry. eapply faulty_incl; eassumption.
+    - destruct (faulty St holds s l2) eqn:F2; [|reflexivity].
+      rewrite (faulty_incl s l2 l1 B F2) in F1. discriminate.
   Qed.
 
   Theorem bisim_exec : forall n p1 p2 s, In (p1, p2) R ->
@@ -584,7 +603,12 @@ Section ExecSound.
       + reflexivity.
       + exfalso. destruct a2 as [c t]. destruct (B c t (or_introl eq_refl)) as (t' & [] & _).
       + exfalso. destruct a1 as [c t]. destruct (A c t (or_introl eq_refl)) as (t' & [] & _).
-      + fold (en s (a1 :: l1')). fold (en s (a2 :: l2')).
+      + assert (FE : faulty St holds s (a1 :: l1') = faulty St holds s (a2 :: l2')).
+        { apply faulty_eq.
+          - intros c t Il. destruct (A _ _ Il) as (t' & I' & _). exists t'. exact I'.
+          - intros c t Il. destruct (B _ _ Il) as (t' & I' & _). exists t'. exact I'. }
+        rewrite FE. destruct (faulty St holds s (a2 :: l2')); [reflexivity|].
+        fold (en s (a1 :: l1')). fold (en s (a2 :: l2')).
         destruct (en s (a1 :: l1')) as [|[c1 t1] [|? ?]] eqn:E1; destruct (en s (a2 :: l2')) as [|[c2 t2] [|? ?]] eqn:E2;
           cbn in L; try lia; try reflexivity.
         assert (I1 : In (c1, t1) (en s (a1 :: l1'))) by (rewrite E1; left; reflexivity).
